@@ -93,6 +93,10 @@ impl StateMachine<'_> {
 
         if self.source == Source::DiffUnified {
             self.state = State::DiffHeader(DiffType::Unified);
+            // Plain `diff -u` output has no `diff` line: every `--- ` header line starts a
+            // new file section, which gets its own header even if it names the same files
+            // as the previous section.
+            self.handled_diff_header_header_line_file_pair = None;
             self.painter
                 .set_syntax(get_filename_from_marker_line(&self.line));
         } else {
